@@ -103,9 +103,16 @@ status_t Thread :: StartInternalThread()
 {
    if (IsInternalThreadRunning()) return B_ALREADY_RUNNING;
 
-   const bool needsInitialSignal = (_threadData[MESSAGE_THREAD_INTERNAL]._messages.HasItems());
    MRETURN_ON_ERROR(StartInternalThreadAux());
-   if (needsInitialSignal) SignalInternalThread();  // make sure he gets his already-queued messages!
+
+   // Make sure he gets his already-queued messages!  This is checked only now that the signalling mechanism exists:  a Message
+   // queued (possibly by another thread) before this point may have had its signal dropped, one queued after it signals for itself.
+   bool needsInitialSignal;
+   {
+      DECLARE_MUTEXGUARD(_threadData[MESSAGE_THREAD_INTERNAL]._queueLock);
+      needsInitialSignal = _threadData[MESSAGE_THREAD_INTERNAL]._messages.HasItems();
+   }
+   if (needsInitialSignal) SignalInternalThread();
    return B_NO_ERROR;
 }
 
